@@ -380,7 +380,7 @@ TaintPrecise(c) == /\ SeqHas(c.taint, "dup") => ~c.wf
 AllHold(Pr) == \A i \in 1..Len(Pr) : CaseHolds(Pr[i]) /\ TaintPrecise(Pr[i])
 
 \* Non-vacuity: untainted cases really exercise union casting, filling and container merging.
-NonVacuous(Pr) == Shard < 0 \/
+NonVacuous(Pr) == IF Shard < 0 THEN TRUE ELSE
   /\ \E i \in 1..Len(Pr) : Pr[i].taint = <<>> /\ Pr[i].fused.k = "union"
   /\ \E i \in 1..Len(Pr) : Pr[i].taint = <<>> /\ Pr[i].fused.k = "rec"
                              /\ Len(Pr[i].fused.fs) = 2 /\ Pr[i].ins[1].k = "rec" /\ Len(Pr[i].ins[1].fs) = 1
